@@ -116,6 +116,7 @@ def elements(level=1):
             lambda: Array(String(), minItems=1, uniqueItems=True), lambda: Array([String(), Integer()]),
             lambda: Array(Number()), lambda: Element(items=Number()),
         ]
+    level1 = list(out[len(leaves):]) if level >= 1 else []
     if level >= 2:
         def cls_plain():
             class Plain(Object):
@@ -163,6 +164,19 @@ def elements(level=1):
         out += [cls_plain, cls_req, cls_renamed, cls_expl, cls_child, cls_nested, cls_default,
                 lambda: Array(cls_req()), lambda: AnyOf(cls_plain(), String()), lambda: AllOf(Element(minProperties=1), cls_plain()),
                 lambda: Element(properties={"o": Property(cls_req())}), lambda: OneOf(cls_req(), cls_renamed())]
+    if level >= 3:
+        # two nestings: every one-level wrapper around every level-1 element (thorough tier only)
+        wrappers = [
+            lambda s: Array(s), lambda s: Element(items=s), lambda s: Element(contains=s), lambda s: Not(s),
+            lambda s: Element(additionalProperties=s), lambda s: Element(propertyNames=s), lambda s: Element(patternProperties={"^a": s}),
+            lambda s: Element(properties={"a": Property(s)}), lambda s: Element(properties={"a": Property(s, required=True)}),
+            lambda s: Element(properties={"a_b": Property(s, source="a-b")}), lambda s: Element(dependencies={"a": s}),
+            lambda s: Element(items=[s, String()], additionalItems=False), lambda s: Element(items=[String()], additionalItems=s),
+            lambda s: AnyOf(s, String()), lambda s: OneOf(s, Null()), lambda s: AllOf(Element(), s),
+        ]
+        for wfn in wrappers:
+            for m in level1:
+                out.append(lambda wfn=wfn, m=m: wfn(m()))
     return out
 
 
